@@ -404,9 +404,9 @@ theorem resume_flag (s : BSt) (a : Nat) (x : Actor) (f : Nat) (hx : s.actor a = 
 /-! ### other threads (needs the ordering invariant) -/
 
 /-- under the C05 hypotheses: once a popped event `st` is in the pop log, every record with a strictly smaller
-    timestamp accepted by a registered context has been popped -/
+    timestamp accepted by any context has been popped (a context that still holds records is registered) -/
 theorem earlier_popped {s : BSt} (hF : FI none [] s) (hG : GI s) (hp : GracePremise s) {i : Nat} {st : Stmt}
-    (hst : st ∈ (s.th i).popped) {k : Nat} (hk : k ∈ s.registry) {r : Stmt} (hr : r ∈ (s.th k).accepted)
+    (hst : st ∈ (s.th i).popped) {k : Nat} {r : Stmt} (hr : r ∈ (s.th k).accepted)
     (hlt : r.ts < st.ts) : r ∈ (s.th k).popped := by
   obtain ⟨fl, hI⟩ := hG
   have o := hI.ord (premI_of_premise hp)
@@ -415,6 +415,7 @@ theorem earlier_popped {s : BSt} (hF : FI none [] s) (hG : GI s) (hp : GracePrem
   rcases List.mem_append.mp hr with h | h
   · exact h
   · exfalso
+    have hk : k ∈ s.registry := hI.reg k (by intro he; rw [chain, he] at h; cases h)
     have := o.above st hpl k hk r h
     omega
 
